@@ -37,6 +37,16 @@ func (s *scopeGen) snapshot() ast.Node {
 	return ast.ArrayLit{Elems: es}
 }
 
+// bound is a loop bound 1..3; half of the time it is computed from the variable
+// named v as the loop's function sees it *before* the loop (an iterator
+// expression is outside the scope of the loop's own variables).
+func (s *scopeGen) bound(v string) ast.Node {
+	if s.r.Bool() {
+		return ast.IntLit{V: int64(s.r.Range(1, 3))}
+	}
+	return ast.Binary{Op: "+", L: ast.Binary{Op: "%", L: ast.Unary{Op: "#", X: call("toa", name(v))}, R: ast.IntLit{V: 3}}, R: ast.IntLit{V: 1}}
+}
+
 func (s *scopeGen) fresh(prefix string) string {
 	s.seq++
 	return fmt.Sprintf("%s%c%c", prefix, 'a'+s.seq/26%26, 'a'+s.seq%26)
@@ -88,7 +98,7 @@ func (s *scopeGen) function(lvl int, tag string) (ast.FuncLit, *fnInfo) {
 			// for-variable declares a local of that name; the body records it
 			acc := s.fresh("zc")
 			ss = append(ss, ast.Assign{Name: acc, Value: ast.IntLit{V: 0}},
-				ast.For{Vars: []string{n}, Iters: []ast.Node{call("fromto", ast.IntLit{V: 0}, ast.IntLit{V: int64(r.Range(1, 3))})}, Body: ast.Assign{Name: acc, Value: ast.Binary{Op: "+", L: name(acc), R: name(n)}}})
+				ast.For{Vars: []string{n}, Iters: []ast.Node{call("fromto", ast.IntLit{V: 0}, s.bound(n))}, Body: ast.Assign{Name: acc, Value: ast.Binary{Op: "+", L: name(acc), R: name(n)}}})
 		}
 	}
 	if r.Chance(1, 2) {
@@ -108,7 +118,7 @@ func (s *scopeGen) function(lvl int, tag string) (ast.FuncLit, *fnInfo) {
 			after := s.fresh("zw")
 			acc := s.fresh("zc")
 			ss = append(ss, ast.Assign{Name: acc, Value: ast.StrLit{V: ""}},
-				ast.For{Vars: vars, Iters: []ast.Node{call("fromto", ast.IntLit{V: 0}, ast.IntLit{V: int64(r.Range(1, 3))}), call("elems", ast.StrLit{V: "pqr"})},
+				ast.For{Vars: vars, Iters: []ast.Node{call("fromto", ast.IntLit{V: 0}, s.bound(vars[1])), call("elems", ast.Binary{Op: "+", L: ast.StrLit{V: "pq"}, R: call("toa", name(vars[0]))})},
 					Body: ast.Block{Stmts: []ast.Node{ast.Assign{Name: after, Value: ast.IntLit{V: 100}}, ast.Assign{Name: acc, Value: ast.Binary{Op: "+", L: name(acc), R: ast.Binary{Op: "+", L: call("toa", name(vars[0])), R: call("toa", name(vars[1]))}}}}}},
 				call("write", ast.Binary{Op: "+", L: ast.StrLit{V: " zip " + tag + " "}, R: ast.Binary{Op: "+", L: name(acc), R: call("toa", name(after))}}))
 		}
